@@ -78,9 +78,8 @@ func opName(i int, o bcOp) string { return fmt.Sprintf("%d:%s", i, o) }
 func runBcSchedule(ops []bcOp, prefix []int) *bcRun {
 	r := &bcRun{Ops: ops, Outcome: map[string]string{}}
 	sch := NewSched()
-	utils.VerifTrace = sch.Trace
-	utils.VerifYield = sch.Yield
-	defer func() { utils.VerifTrace = nil; utils.VerifYield = nil }()
+	utils.SetVerifHooks(sch.Trace, sch.Yield)
+	defer utils.SetVerifHooks(nil, nil)
 
 	b := utils.NewBroadcaster[int]()
 	var ctxs [2]context.Context
